@@ -276,6 +276,27 @@ def exhaustive_worker(task):
     return st_
 
 
+def collision_worker(task):
+    """two triggers, one at each end, then every delivery order (deliver-0 / deliver-1 choices) of what they cause"""
+    pairs, nbits, cfgp = task
+    st_ = Stats()
+    for (t1, s1, t2, s2) in pairs:
+        for bits in range(1 << nbits):
+            ops = [to_op(t1, s1, 0), to_op(t2, s2, 0)] + [['deliver', (bits >> i) & 1] for i in range(nbits)]
+            case = {'cfg': cfgp, 'first': 'a', 'lossy': False, 'ops': ops}
+            fails, info, s = run_case(case)
+            st_.case(fingerprint(case, info), nontrivial=info['collisions'] > 0,
+                     klass=['collision-orders'] + [f'collision:{a}<-{b}' for a, b in info['pairs']],
+                     sample={'ops': ops, 'collisions': info['pairs']} if info['collisions'] else None)
+            for f in fails:
+                f.case = case
+                if common.KNOWN.is_open('C09', f.sig):
+                    st_.excluded[f.sig] += 1
+                elif not any(g.sig == f.sig for g in st_.failures):
+                    st_.failures.append(f)
+    return st_
+
+
 def walk_worker(task):
     n, seed, lossy = task
     ctx = common.Ctx('C09', 'quick', seed)
@@ -285,6 +306,8 @@ def walk_worker(task):
 
 
 def _dispatch(t):
+    if t[0] == 'col':
+        return collision_worker(t[1])
     return exhaustive_worker(t[1]) if t[0] == 'ex' else walk_worker(t[1])
 
 
@@ -298,6 +321,12 @@ def run(ctx):
     if not ctx.quick:
         for pr in pairs:
             tasks.append(('ex', ([pr], 4, {'dh': '19', 'pfs': '19', 'mode': 'tunnel', 'proto': 'ah'})))
+    nbits = 6 if ctx.quick else 9
+    cpairs = [(t1, s1, t2, s2) for t1 in TRIGGERS for t2 in TRIGGERS for s1, s2 in (('a', 'b'), ('b', 'a'))]
+    for i in range(0, len(cpairs), 3):
+        tasks.append(('col', (cpairs[i:i + 3], nbits, {'dh': '19'})))
+    ctx.extra['collision_orders'] = (f'every ordered pair of triggers at opposite ends ({len(cpairs)}) x every sequence of {nbits} '
+                                     f'deliver-0 / deliver-1 choices, then the drain')
     for i in range(common.NCPU):
         tasks.append(('walk', (n_walk, ctx.seed * 64 + i, i % 2 == 1)))
     for st_ in pmap(_dispatch, tasks):
@@ -306,3 +335,6 @@ def run(ctx):
     ctx.extra['exhaustive_scope'] = (f'every schedule of depth {depth} over the alphabet of {len(ALPHABET)} operations '
                                      f'(12 triggers, deliver-0, deliver-1) from an established IKE_SA with one CHILD_SA; '
                                      f'the seeded walks beyond it are sampled, not exhaustive')
+    if not ctx.quick:
+        import sys as _sys
+        common.hyp_fuzz_stage(ctx, _sys.modules[__name__], 'cases(True)')
